@@ -1,0 +1,12 @@
+//go:build verif
+
+package fiber
+
+// VerifRouteMatch reports the decision of (*Route).match for the request currently held by c.
+// It exists only under the build tag `verif` for the verification harness in /verif (property
+// C01: dispatch must equal a linear scan of the stack with this very matcher); it has no call
+// site in fiber and is not part of the public API.
+func VerifRouteMatch(r *Route, c Ctx) bool {
+	var params [maxParams]string
+	return r.match(c.getDetectionPath(), c.Path(), &params)
+}
